@@ -32,8 +32,10 @@ def make_run(cfg):
                 return self._persistent        # an override may well hand out the same dict object every time
             return {"DMON": b"d"} if cfg.get("daemon_ann") else {}
 
+    watch = S.watch_functions(server.Daemon.handleRequest, follow=True) if cfg.get("watch_request") else None
+
     def run_fn(chooser):
-        w = SchedWorld(chooser, servertype=cfg["server"], allow_ticks=False, max_idle_wakes=30, THREADPOOL_SIZE=cfg.get("pool", 4), THREADPOOL_SIZE_MIN=1)
+        w = SchedWorld(chooser, servertype=cfg["server"], allow_ticks=False, max_idle_wakes=30, watch=watch, THREADPOOL_SIZE=cfg.get("pool", 4), THREADPOOL_SIZE_MIN=1)
         violations = []
         try:
             d = w.daemon(AnnDaemon)
@@ -310,6 +312,9 @@ def configs(quick):
     for server, pool in (("multiplex", 4), ("thread", 4)):
         out.append({"server": server, "pool": pool, "scripts": [["ow_batch", "plain", "plain"], ["ret_assign", "plain"]], "p": 1, "r": 1, "horizon": 4000})
         out.append({"server": server, "pool": pool, "scripts": [["plain", "ow_batch", "ret_update"]], "p": 1, "r": 2, "horizon": 4000})
+    # (c4) two workers inside Daemon.handleRequest at the same time, every source line a scheduling point (one preemption)
+    out.append({"server": "thread", "pool": 4, "watch_request": True, "scripts": [["plain"], ["plain", "plain"]], "p": 1, "r": 1, "horizon": 8000})
+    out.append({"server": "thread", "pool": 4, "watch_request": True, "scripts": [["ret_assign"], ["raise_after_set", "plain"]], "p": 1, "r": 0, "horizon": 8000})
     # (d) three clients
     out.append({"server": "multiplex", "pool": 4, "scripts": [["raise_after_set"], ["ow_set"], ["plain", "ping"]], "p": 1, "r": 1 if quick else 2, "horizon": 4000})
     out.append({"server": "multiplex", "pool": 4, "daemon_ann": True, "scripts": [["ret_assign", "plain"], ["raise_after_set", "plain"]], "p": 1, "r": 2, "horizon": 4000})
